@@ -20,4 +20,5 @@ var extraCmds = map[string]func([]string){
 	"probe":  records.ProbeMain,
 	"scale":  records.ScaleMain,
 	"output": records.OutputMain,
+	"api":    records.ApiMain,
 }
